@@ -35,7 +35,7 @@ pub struct CaseResult {
     pub any_reference_value: bool,
 }
 
-fn short_sigil(s: &str) -> &str {
+pub fn short_sigil(s: &str) -> &str {
     match s {
         "*standard-cl-21*" => "cl21",
         "*strict-cl-21*" => "strict21",
